@@ -1,7 +1,6 @@
 package main
 
 import (
-	"encoding/json"
 	"go/types"
 	"flag"
 	"fmt"
@@ -152,6 +151,8 @@ type runConfig struct {
 	tags    string
 	verbose bool
 	seed    int64
+	prop    string
+	propsFile string
 }
 
 type runResult struct {
@@ -163,6 +164,7 @@ type runResult struct {
 	lemmas    []*Obligation
 	assumed   []string
 	solverSec float64
+	sel       selection
 }
 
 func hasProp(c *Contract, props []string) bool {
@@ -196,10 +198,20 @@ func run(cfg runConfig) (*runResult, error) {
 	fns := allFunctions(lr)
 	res := &runResult{engine: e}
 	var keys []string
-	for k := range db.Contracts {
-		keys = append(keys, k)
+	if cfg.prop != "" {
+		props, err := loadProperties(cfg.propsFile)
+		if err != nil {
+			return nil, err
+		}
+		res.sel = selectFor(cfg.prop, props[cfg.prop], db, fns, lr, cfg.repo, cfg.tier == "thorough")
+		keys = res.sel.keys
+		cfg.props = nil
+	} else {
+		for k := range db.Contracts {
+			keys = append(keys, k)
+		}
+		sort.Strings(keys)
 	}
-	sort.Strings(keys)
 	for _, k := range keys {
 		c := db.Contracts[k]
 		if c.Trusted != "" || c.Inline {
@@ -330,7 +342,9 @@ func cmdCheck(args []string) int {
 	fs := flag.NewFlagSet("check", flag.ExitOnError)
 	repo := fs.String("repo", "/repo", "repository")
 	spec := fs.String("spec", "/verif/spec", "spec directory")
-	props := fs.String("props", "", "comma separated property ids")
+	props := fs.String("props", "", "comma separated property tags (contracts carrying them)")
+	prop := fs.String("prop", "", "property id: verify its contracts and its anchored dependency cone")
+	propsFile := fs.String("properties", "/verif/properties.jsonl", "properties file")
 	funcs := fs.String("func", "", "only functions whose key contains this")
 	tier := fs.String("tier", "quick", "quick|thorough")
 	timeout := fs.Int("timeout", 0, "per-obligation solver timeout (s)")
@@ -338,9 +352,11 @@ func cmdCheck(args []string) int {
 	verbose := fs.Bool("v", false, "verbose")
 	out := fs.String("out", "/verif/out", "output directory for SMT files")
 	evidence := fs.String("evidence", "", "evidence file to write")
+	replayDir := fs.String("replaydir", "/verif/replay", "directory for violation/replay files")
+	seed := fs.Int64("seed", 0, "seed")
 	_ = fs.Parse(args)
 	outDir = *out
-	cfg := runConfig{repo: *repo, specDir: *spec, funcs: *funcs, tier: *tier, timeout: *timeout, tags: *tags, verbose: *verbose}
+	cfg := runConfig{repo: *repo, specDir: *spec, funcs: *funcs, tier: *tier, timeout: *timeout, tags: *tags, verbose: *verbose, prop: *prop, propsFile: *propsFile, seed: *seed}
 	if *props != "" {
 		cfg.props = strings.Split(*props, ",")
 	}
@@ -350,15 +366,22 @@ func cmdCheck(args []string) int {
 			cfg.timeout = 60
 		}
 	}
-	if len(cfg.props) == 1 {
-		outDir = filepath.Join(*out, cfg.props[0])
+	if cfg.prop != "" {
+		outDir = filepath.Join(*out, cfg.prop)
+		_ = os.RemoveAll(outDir)
 	}
 	res, err := run(cfg)
 	if err != nil {
-		fmt.Fprintln(os.Stderr, "ENGINE-ERROR:", err)
+		fmt.Println("ENGINE-ERROR:", err)
+		if cfg.prop != "" {
+			v := &violation{Obligation: "engine.load", Kind: "engine", Statement: "the repository loads and every contract can be processed", Status: "error", Output: err.Error()}
+			f := writeViolation(*replayDir, cfg.prop, v)
+			fmt.Printf("VIOLATION property=%s replay=%s obligation=engine.load no-failing-input-found\n", cfg.prop, f)
+			return 1
+		}
 		return 2
 	}
-	fail := 0
+	var viols []*violation
 	byBackend := map[string]int{}
 	for _, o := range res.obls {
 		if o.ok() {
@@ -368,11 +391,17 @@ func cmdCheck(args []string) int {
 			}
 			continue
 		}
-		fail++
-		fmt.Printf("  FAIL %s [%s] %s\n       %s\n       file: %s\n", o.Name, o.Result.Status, o.Text, firstLines(o.Result.Output, 2), o.Result.File)
+		v := &violation{Obligation: o.Name, Kind: o.Kind, Statement: o.Text, Status: o.Result.Status, Solver: o.Result.Solver, Output: o.Result.Output, SMTFile: o.Result.File}
+		if o.Kind == "cover" {
+			v.Statement = "vacuity guard failed: " + o.Text
+		}
 		if o.Result.Status == "sat" {
-			m := parseModel(o.Result.Output)
-			ls := sortedModel(m)
+			v.Model = parseModel(o.Result.Output)
+		}
+		viols = append(viols, v)
+		fmt.Printf("  FAIL %s [%s] %s\n       %s\n       file: %s\n", o.Name, o.Result.Status, o.Text, firstLines(o.Result.Output, 2), o.Result.File)
+		if *verbose && v.Model != nil {
+			ls := sortedModel(v.Model)
 			if len(ls) > 24 {
 				ls = ls[:24]
 			}
@@ -381,14 +410,51 @@ func cmdCheck(args []string) int {
 			}
 		}
 	}
-	for _, er := range res.errors {
+	for i, er := range res.errors {
 		fmt.Println("  ERROR", er)
+		viols = append(viols, &violation{Obligation: fmt.Sprintf("engine.error.%d", i), Kind: "engine", Statement: "every contracted function can be symbolically executed and every contract binds", Status: "error", Output: er})
 	}
-	fmt.Printf("functions=%d obligations=%d failed=%d errors=%d wall=%.1fs solver=%.1fs backends=%v\n", len(res.funcs), len(res.obls), fail, len(res.errors), res.wall, res.solverSec, byBackend)
-	if *evidence != "" {
-		_ = json.NewEncoder(os.Stdout)
+	nobl := 0
+	for _, o := range res.obls {
+		if o.Kind != "cover" {
+			nobl++
+		}
 	}
-	if fail > 0 || len(res.errors) > 0 {
+	if cfg.prop != "" && nobl == 0 {
+		viols = append(viols, &violation{Obligation: "engine.no-obligations", Kind: "engine", Statement: "the property generates at least one obligation", Status: "error", Output: "zero obligations generated"})
+	}
+	fmt.Printf("functions=%d obligations=%d failed=%d errors=%d wall=%.1fs solver=%.1fs backends=%v\n", len(res.funcs), len(res.obls), len(viols)-len(res.errors), len(res.errors), res.wall, res.solverSec, byBackend)
+	if cfg.prop != "" {
+		_ = os.RemoveAll(filepath.Join(*replayDir, cfg.prop))
+		var vs []violation
+		for _, v := range viols {
+			if v.Kind != "engine" && v.Kind != "cover" {
+				v.Replay = tryReplay(cfg, res, v)
+			}
+			writeViolation(*replayDir, cfg.prop, v)
+			vs = append(vs, *v)
+		}
+		if *evidence != "" {
+			if err := writeEvidence(*evidence, cfg.prop, cfg, res, res.sel, vs, nil); err != nil {
+				fmt.Println("ENGINE-ERROR: cannot write evidence:", err)
+				return 2
+			}
+		}
+		shown := 0
+		for _, v := range viols {
+			suffix := " no-failing-input-found"
+			if v.Replay != nil && v.Replay.Failing {
+				suffix = ""
+			}
+			fmt.Printf("VIOLATION property=%s replay=%s obligation=%s%s\n", cfg.prop, v.File, v.Obligation, suffix)
+			shown++
+			if shown >= 40 {
+				fmt.Printf("... %d more violations\n", len(viols)-shown)
+				break
+			}
+		}
+	}
+	if len(viols) > 0 {
 		return 1
 	}
 	return 0
